@@ -507,6 +507,7 @@ theorem delete_inv (H : Bytes → Bytes) (hasDb : Bool) (s : Store) : ∀ (fuel 
             simp only at i1 ⊢
             have hr : DirtyUp rn := i1 trivial
             split
+            · exact ⟨fun _ => trivial, fun e he => by simp at he⟩
             · exact ⟨fun _ => hr, fun e he => by simp at he⟩
             · exact ⟨fun _ => hr, fun e he => by simp at he⟩
     | routing h ch w d tc =>
